@@ -80,6 +80,15 @@ def _iadd(z):
     return y
 
 
+def _masked_iadd(z):
+    """np.add(y, float64 array, out=y, where=mask) on a single-precision copy: masked-out samples and the dtype are kept."""
+    y = _single(type(z).like(z, z.data.copy()))
+    mask = (np.arange(int(np.prod(z.shape))).reshape(z.shape) % 3 != 0)
+    r = np.add(y, np.full(z.shape[-1:], 0.1, dtype=np.float64), out=y, where=mask)
+    assert r is y
+    return y
+
+
 def _weights(z):
     w = np.arange(1, z.shape[-1] + 1) / 4 + 0.5
     return (w + 0.25j).astype(np.complex128) if z.dtype.kind == "c" else w.astype(np.float64)
@@ -163,6 +172,10 @@ OPS = [
      lambda z: _cast_scaled(z, dtype=np.complex64 if z.dtype.kind == "c" else np.float32, name=1.5)),
     ("in-place multiply by double-precision weights", floaty, lambda z: _imul(z, _weights(z))),
     ("in-place add of a float64 array", floaty, lambda z: _imul(z, 1.0) if False else _iadd(z)),
+    ("masked in-place add (out= with where=) of a float64 array into single-precision data", floaty, lambda z: _masked_iadd(z)),
+    ("ufunc with casting=, order= and subok= keywords", floaty, lambda z: np.add(z, 1, casting="same_kind", order="K", subok=True)),
+    ("ufunc with out= and casting='unsafe'", lambda z: z.dtype.kind == "f",
+     lambda z: np.multiply(z, 1.5 + 0j, out=type(z).like(z, z.data.copy()), casting="unsafe")),
     ("ERR in-place multiply of real data by 1j", lambda z: z.dtype.kind == "f", lambda z: _imul(z, 1j)),
     ("signal_transform abs", lambda z: not is_bb(z), lambda z: _absval(z)),
     ("stft 2", is_bb, lambda z: pb.contrib.stft(z, nperseg=2)),
